@@ -31,6 +31,14 @@ func (s Suite) Pair(p1, p2 kyber.Point) kyber.Point {
 func (s Suite) ValidatePairing(p1, p2, p3, p4 kyber.Point) bool {
 	a, b := p1.(*G1Elt), p2.(*G2Elt)
 	c, d := p3.(*G1Elt), p4.(*G2Elt)
+	// ProdPairFrac brings all its G1 inputs to affine form with one shared field
+	// inversion. If one of them is the identity (z = 0) the shared inverse is 0,
+	// every input collapses and the product is 1 whatever the other pair is:
+	// the check would accept e.g. the identity point as a BLS signature for any
+	// key and message. Compare the two pairings directly in that case.
+	if a.inner.IsIdentity() || c.inner.IsIdentity() {
+		return bls12381.Pair(&a.inner, &b.inner).IsEqual(bls12381.Pair(&c.inner, &d.inner))
+	}
 	out := bls12381.ProdPairFrac(
 		[]*bls12381.G1{&a.inner, &c.inner},
 		[]*bls12381.G2{&b.inner, &d.inner},
